@@ -421,7 +421,7 @@ fn torn_tail(k: usize, then_write: u8) {
                 }
                 m.do_vote(v);
                 assert_matches(&rl, &m);
-                kani::cover!(true, "write after recovery");
+                kani::cover!(true, "vote after recovery");
             }
             if then_write == 2 {
                 let id = any_id();
@@ -432,7 +432,7 @@ fn torn_tail(k: usize, then_write: u8) {
                 m.do_append(id, p);
                 assert_matches(&rl, &m);
                 assert_cached(&rl, &m);
-                kani::cover!(true, "write after recovery");
+                kani::cover!(true, "append after recovery");
             }
             core::mem::forget(rl);
         }
@@ -440,13 +440,13 @@ fn torn_tail(k: usize, then_write: u8) {
     }
 }
 
-// @harness name=c05_torn_tail_first_byte prop=C05 tier=quick timeout=1200 fs=512 allow_unsat=write
+// @harness name=c05_torn_tail_first_byte prop=C05 tier=quick timeout=1200 fs=512 allow_unsat=vote,append
 replay_proof! { unwind = 10, crc = off, fn c05_torn_tail_first_byte() { torn_tail(1, 0); } }
-// @harness name=c05_torn_tail_mid prop=C05 tier=thorough timeout=1200 fs=512 allow_unsat=write
+// @harness name=c05_torn_tail_mid prop=C05 tier=thorough timeout=1200 fs=512 allow_unsat=vote,append
 replay_proof! { unwind = 10, crc = off, fn c05_torn_tail_mid() { torn_tail(6, 0); } }
-// @harness name=c05_torn_tail_last_byte_vote prop=C05 tier=thorough timeout=2400 fs=512
+// @harness name=c05_torn_tail_last_byte_vote prop=C05 tier=thorough timeout=2400 fs=512 allow_unsat=append
 replay_proof! { unwind = 10, crc = off, fn c05_torn_tail_last_byte_vote() { torn_tail(0, 1); } }
-// @harness name=c05_torn_tail_last_byte_append prop=C05 tier=thorough timeout=3000 fs=512
+// @harness name=c05_torn_tail_last_byte_append prop=C05 tier=thorough timeout=3000 fs=512 allow_unsat=vote
 replay_proof! { unwind = 10, crc = off, fn c05_torn_tail_last_byte_append() { torn_tail(0, 2); } }
 
 // two chunks, the newest torn inside its second record (its head snapshot is complete)
